@@ -230,3 +230,70 @@ def block_offset(db, f, E, H):
             if any('<C as lightmotif::num::MultipleOf<' in p and ('U16' in p.split('MultipleOf<', 1)[1] or 'Sse2 as lightmotif::pli::platform::Backend>::Lanes' in p) for p in preds):
                 return ('offset', 16)
     return None
+
+
+def bump_view(E):
+    """Present index-derived row addresses (`base.add(i * stride)` with i the index of loop H) as a pointer bumped by `stride` once per
+    iteration of H, which is the form the reduction rules are written on.  For every loop H whose accesses all use the same
+    `it#H*<stride atom>` term, a virtual carried pointer ('virt', H) is added: start = base + (the loop-invariant multiple of the stride),
+    step = the coefficient of the it-term; the load / store keys inside all lane terms are rewritten to offsets from that pointer.
+    Loops that already carry a pointer, or whose accesses disagree, are left alone (the rules then fail closed as before)."""
+    import copy
+    by_loop = {}
+    for a in E.acc:
+        if not isinstance(a.ptr, Ptr):
+            continue
+        its = [k for k in a.ptr.off if isinstance(k, str) and k.startswith('it#') and '*' in k]
+        if len(its) == 1:
+            H = int(its[0][3:].split('*', 1)[0])
+            by_loop.setdefault(H, []).append((a, its[0]))
+    mapping = {}
+    for H, lst in by_loop.items():
+        L = E.loops.get(H)
+        if L is None or any(isinstance(v, Ptr) for v in L.carried.values()):
+            continue
+        terms = {(k, a.ptr.off[k], a.ptr.base) for a, k in lst}
+        if len(terms) != 1:
+            continue
+        k, coef, base = next(iter(terms))
+        atom = k[3:].split('*', 1)[1]
+        inv = {a.ptr.off.get(atom, 0) for a, _ in lst}
+        if len(inv) != 1:
+            continue
+        bare = inv.pop()
+        virt = ('virt', H)
+        L.carried[virt] = Ptr(base, ({atom: bare} if bare else {}))
+        L.update[virt] = Ptr(('phi', H, virt), {atom: coef})
+        for a, _ in lst:
+            old = a.ptr.key()
+            rest = {kk: vv for kk, vv in a.ptr.off.items() if kk != k and kk != atom}
+            newp = Ptr(('phi', H, virt), rest, a.ptr.elem)
+            mapping[old] = newp.key()
+            a.ptr = newp
+    if not mapping:
+        return E
+
+    def sub(t):
+        if isinstance(t, tuple):
+            if t in mapping:
+                return mapping[t]
+            return tuple(sub(x) for x in t)
+        return t
+
+    def subv(v):
+        if isinstance(v, Vec):
+            try:
+                return Vec([sub(x) for x in v.b])
+            except Exception:
+                return v
+        if isinstance(v, tuple):
+            return sub(v)
+        return v
+    for L in E.loops.values():
+        L.carried = {l: (subv(v) if not isinstance(v, Ptr) else v) for l, v in L.carried.items()}
+        L.update = {l: (subv(v) if not isinstance(v, Ptr) else v) for l, v in L.update.items()}
+    for a in E.acc:
+        if a.value is not None:
+            a.value = subv(a.value)
+    E.local_mem = {k: [(o, subv(v)) for o, v in lst] for k, lst in E.local_mem.items()}
+    return E
